@@ -696,38 +696,43 @@ class C15(Check):
                 return
             if thunk_args is None:
                 return
-            kw_big = thunk_args
-            # the block keeps the full extent along one (seeded) axis, so that slabs / tiles along that
-            # axis on the large array meet inside the block
-            keep = prng.np_rng(p["sub"], "keep_axis").integers(0, dim)
-            lo = [int(n // 2) - blk // 2 - halo for n in big]
-            sl_halo = tuple(slice(0, big[ax]) if ax == keep else slice(lo[ax], lo[ax] + blk + 2 * halo) for ax in range(dim))
-            kw_blk = {}
-            for k, v in kw_big.items():
-                if isinstance(v, np.ndarray):
-                    idx = sl_halo if v.ndim == dim else (slice(None), *sl_halo)
-                    kw_blk[k] = np.ascontiguousarray(v[idx])
-                else:
-                    kw_blk[k] = v
-            with np.errstate(all="ignore"):
-                inner(**kw_blk)
-                inner(**kw_big)
+            kw0 = thunk_args
             eps = float(np.finfo(real_t).eps)
-            core = tuple(slice(halo, big[ax] - halo) if ax == keep else slice(halo, halo + blk) for ax in range(dim))
-            for k, v in kw_big.items():
-                if not isinstance(v, np.ndarray):
-                    continue
-                idx = sl_halo if v.ndim == dim else (slice(None), *sl_halo)
-                cidx = core if v.ndim == dim else (slice(None), *core)
-                a = np.asarray(v[idx][cidx], dtype=np.float64)
-                b = np.asarray(kw_blk[k][cidx], dtype=np.float64)
-                fin = np.isfinite(a) & np.isfinite(b)
-                tol = 256 * eps * np.maximum(1.0, np.abs(b))
-                if not np.all((np.abs(a - b) <= tol)[fin]):
+            lo = [int(n // 2) - blk // 2 - halo for n in big]
+            for keep in range(dim):
+                # the block keeps the full extent along one axis, so that slabs / tiles along that axis on
+                # the large array meet inside the block
+                kw_big = {k: (v.copy() if isinstance(v, np.ndarray) else v) for k, v in kw0.items()}
+                sl_halo = tuple(slice(0, big[ax]) if ax == keep else slice(lo[ax], lo[ax] + blk + 2 * halo) for ax in range(dim))
+                kw_blk = {}
+                for k, v in kw_big.items():
+                    if isinstance(v, np.ndarray):
+                        idx = sl_halo if v.ndim == dim else (slice(None), *sl_halo)
+                        kw_blk[k] = np.ascontiguousarray(v[idx])
+                    else:
+                        kw_blk[k] = v
+                with np.errstate(all="ignore"):
+                    inner(**kw_blk)
+                    inner(**kw_big)
+                core = tuple(slice(halo, big[ax] - halo) if ax == keep else slice(halo, halo + blk) for ax in range(dim))
+                bad = None
+                for k, v in kw_big.items():
+                    if not isinstance(v, np.ndarray):
+                        continue
+                    idx = sl_halo if v.ndim == dim else (slice(None), *sl_halo)
+                    cidx = core if v.ndim == dim else (slice(None), *core)
+                    a = np.asarray(v[idx][cidx], dtype=np.float64)
+                    b = np.asarray(kw_blk[k][cidx], dtype=np.float64)
+                    fin = np.isfinite(a) & np.isfinite(b)
+                    tol = 256 * eps * np.maximum(1.0, np.abs(b))
+                    if not np.all((np.abs(a - b) <= tol)[fin]):
+                        bad = (k, float(np.max(np.abs(a - b)[fin])))
+                        break
+                if bad:
                     res.violation(
                         "blocking_dependence",
-                        {"gen": p["gen"], "param": k},
-                        f"{p['gen']} {p['opts']}: on a {big} array the values of '{k}' inside a {blk}-cell block differ from the same wrapper applied to that block cut out with a halo (max dev {float(np.max(np.abs(a - b)[fin])):.3e}): the result depends on how the index space is split",
+                        {"gen": p["gen"], "param": bad[0]},
+                        f"{p['gen']} {p['opts']}: on a {big} array the values of '{bad[0]}' inside a block (full extent along axis {keep}, {blk} cells along the others) differ from the same wrapper applied to that block cut out with a halo (max dev {bad[1]:.3e}): the result depends on how the index space is split",
                     )
                     break
             res.probe("blocking_probe_on_production_sized_array")
